@@ -86,6 +86,8 @@ func ScramSHA256PlusAuth(username, password string, tlsConnState *tls.Connection
 
 // Start initializes the SCRAM authentication process and returns the selected algorithm, nil data, and no error.
 func (a *scramAuth) Start(_ *ServerInfo) (string, []byte, error) {
+	// an exchange never starts with the state of an earlier exchange of this instance
+	a.reset()
 	return a.algorithm, nil, nil
 }
 
